@@ -40,7 +40,8 @@ HAZARD_PROGRAMS = {
 
 
 # --------------------------------------------------------------------------
-# AST walk of Sandbox._execute
+# Sandbox._execute: harness/sandboxexec_ladder.py (read by meaning + measured on the real function)
+# Sandbox._import: scanned here, helper methods followed
 
 def _is_self_call(node, name):
     return (isinstance(node, ast.Call) and isinstance(node.func, ast.Attribute) and node.func.attr == name
@@ -56,121 +57,72 @@ def _self_attr(node, name):
             and node.value.id == "self")
 
 
-def classify_stmt(st, notes):
-    """-> list of Act constructor names for one statement of _execute."""
-    if isinstance(st, ast.Expr):
-        v = st.value
-        if isinstance(v, ast.Constant) and isinstance(v.value, str):
-            return []                                   # docstring / comment string
-        if _is_self_call(v, "clear_exception"):
-            return ["clearException"]
-        if _is_self_call(v, "_start_mocking"):
-            return ["startMocking"]
-        if _is_self_call(v, "_stop_mocking"):
-            return ["stopMocking"]
-        if _is_self_call(v, "_stop_patches"):
-            return ["stopPatches"]
-        if _is_self_call(v, "_capture_exception"):
-            return ["capture"]
-        if _is_name_call(v, "exec"):
-            return ["exec"]
-        if (isinstance(v, ast.Call) and isinstance(v.func, ast.Attribute) and v.func.attr == "append"
-                and _self_attr(v.func.value, "_context")):
-            return ["pushContext"]
-    if isinstance(st, ast.Assign) and len(st.targets) == 1:
-        tgt, v = st.targets[0], st.value
-        if isinstance(tgt, ast.Name) and _is_name_call(v, "compile"):
-            return ["compile"]
-        if isinstance(tgt, ast.Name) and _is_name_call(v, "SandboxContext"):
-            return ["pure"]
-        if (isinstance(tgt, ast.Subscript) and _self_attr(tgt.value, "data")
-                and isinstance(v, ast.Constant)):
-            return ["pure"]                             # self.data['__name__'] = "__main__"
-    if isinstance(st, ast.AugAssign) and _self_attr(st.target, "_next_context_id") and isinstance(st.op, ast.Add):
-        return ["bumpContextId"]
-    if isinstance(st, ast.Raise) and st.exc is None:
-        return ["reraise"]
-    if isinstance(st, ast.With) and len(st.items) == 1:
-        ce = st.items[0].context_expr
-        traced = (isinstance(ce, ast.Call) and isinstance(ce.func, ast.Attribute) and ce.func.attr == "as_filename"
-                  and _self_attr(ce.func.value, "trace"))
-        inner = [a for s in st.body for a in classify_stmt(s, notes)]
-        if traced and inner == ["exec"]:
-            return ["tracedExec"]
-    if isinstance(st, ast.Pass):
-        return []
-    notes.append("unknown statement at line %d: %s" % (getattr(st, "lineno", 0), ast.unparse(st)[:80]))
-    return ["unknown"]
-
-
-def classify_catch(h, notes):
-    if h.type is None:
-        return "baseException"
-    if isinstance(h.type, ast.Name) and h.type.id in ("Exception", "SystemExit", "BaseException"):
-        return {"Exception": "exception", "SystemExit": "systemExit", "BaseException": "baseException"}[h.type.id]
-    notes.append("unknown except clause: %s" % ast.unparse(h.type)[:60])
-    return "unknown"
-
-
-def walk_execute(func_src):
-    tree = ast.parse(textwrap.dedent(func_src))
-    fn = tree.body[0]
-    notes = []
-    parts = {"pre": [], "body": [], "handlers": [], "orelse": [], "final": [], "post": []}
-    seen_try = False
-    stmts = list(fn.body)
-    for i, st in enumerate(stmts):
-        # `if threaded: return self._execute_with_timeout(...)` - the threaded path is C14's
-        if (isinstance(st, ast.If) and isinstance(st.test, ast.Name) and st.test.id == "threaded" and not st.orelse
-                and len(st.body) == 1 and isinstance(st.body[0], ast.Return)
-                and _is_self_call(st.body[0].value, "_execute_with_timeout") and not seen_try):
-            continue
-        if isinstance(st, ast.Return):
-            if i == len(stmts) - 1 and isinstance(st.value, ast.Name) and st.value.id == "self":
-                continue
-            notes.append("unexpected return at line %d" % st.lineno)
-            parts["post" if seen_try else "pre"].append("unknown")
-            continue
-        if isinstance(st, ast.Try):
-            if seen_try:
-                notes.append("second try statement")
-                parts["post"].append("unknown")
-                continue
-            seen_try = True
-            parts["body"] = [a for s in st.body for a in classify_stmt(s, notes)]
-            for h in st.handlers:
-                parts["handlers"].append((classify_catch(h, notes),
-                                          [a for s in h.body for a in classify_stmt(s, notes)]))
-            parts["orelse"] = [a for s in st.orelse for a in classify_stmt(s, notes)]
-            parts["final"] = [a for s in st.finalbody for a in classify_stmt(s, notes)]
-            continue
-        parts["post" if seen_try else "pre"].extend(classify_stmt(st, notes))
-    if not seen_try:
-        notes.append("no try statement in _execute")
-        parts["body"] = ["unknown"]
-    return parts, notes
-
-
 MOCKING_METHODS = ("_start_mocking", "_stop_mocking", "_start_patches", "_stop_patches", "_capture_exception")
 
 
-def walk_import(func_src):
-    """-> {"reentersTracer", "hasHandlers", "touchesMocking"} for Sandbox._import."""
+def _is_tracer_with(node):
+    if not isinstance(node, ast.With):
+        return False
+    for item in node.items:
+        ce = item.context_expr
+        if (isinstance(ce, ast.Call) and isinstance(ce.func, ast.Attribute) and ce.func.attr == "as_filename"
+                and _self_attr(ce.func.value, "trace")):
+            return True
+    return False
+
+
+def walk_import(func_src, methods=None):
+    """-> {"reentersTracer", "hasHandlers", "touchesMocking"} for Sandbox._import.
+
+    `methods` (name -> FunctionDef of the class): private helpers `_import` calls are FOLLOWED, so that moving the
+    compile / traced exec (or anything else) into a helper changes nothing.  What is looked for:
+      hasHandlers     any `try` in `_import` itself, or - in a helper - a `try` around the path to an `exec`
+                      (a `try` elsewhere in a helper, e.g. while the builtins are copied, handles no student failure);
+      touchesMocking  a call of a mocking / capturing method anywhere on the way;
+      reentersTracer  an `exec` reached inside `with self.trace.as_filename(...)`.
+    """
     fn = ast.parse(textwrap.dedent(func_src)).body[0]
-    nodes = list(ast.walk(fn))
-    has_try = any(isinstance(n, (ast.Try, getattr(ast, "TryStar", ast.Try))) for n in nodes)
-    touches = any(_is_self_call(n, m) for n in nodes for m in MOCKING_METHODS)
-    traced_execs, all_execs = 0, sum(1 for n in nodes if _is_name_call(n, "exec"))
-    for n in nodes:
-        if isinstance(n, ast.With):
-            for item in n.items:
-                ce = item.context_expr
-                if (isinstance(ce, ast.Call) and isinstance(ce.func, ast.Attribute) and ce.func.attr == "as_filename"
-                        and _self_attr(ce.func.value, "trace")):
-                    traced_execs += sum(1 for m in ast.walk(n) if _is_name_call(m, "exec"))
+    methods = methods or {}
+    found = {"try": False, "touches": False, "traced": 0, "execs": 0}
+    try_types = (ast.Try,) + ((ast.TryStar,) if hasattr(ast, "TryStar") else ())
+
+    def contains_exec(node, seen):
+        for n in ast.walk(node):
+            if _is_name_call(n, "exec"):
+                return True
+            if isinstance(n, ast.Call) and isinstance(n.func, ast.Attribute) and isinstance(n.func.value, ast.Name) \
+                    and n.func.value.id == "self" and n.func.attr in methods and n.func.attr not in seen:
+                if contains_exec(methods[n.func.attr], seen | {n.func.attr}):
+                    return True
+        return False
+
+    def scan(node, in_try, traced, own, seen):
+        if isinstance(node, try_types):
+            if own or contains_exec(node, seen):
+                found["try"] = True
+            in_try = True
+        if _is_tracer_with(node):
+            traced = True
+        if isinstance(node, ast.Call):
+            if any(_is_self_call(node, m) for m in MOCKING_METHODS):
+                found["touches"] = True
+            if _is_name_call(node, "exec"):
+                found["execs"] += 1
+                if traced:
+                    found["traced"] += 1
+            f = node.func
+            if (isinstance(f, ast.Attribute) and isinstance(f.value, ast.Name) and f.value.id == "self"
+                    and f.attr in methods and f.attr not in seen and f.attr not in MOCKING_METHODS):
+                for st in methods[f.attr].body:
+                    scan(st, in_try, traced, False, seen | {f.attr})
+        for child in ast.iter_child_nodes(node):
+            scan(child, in_try, traced, own, seen)
+
+    for st in fn.body:
+        scan(st, False, False, True, {fn.name})
     # an `exec` outside the tracer next to one inside would need a finer model: say "re-enters" (the weaker claim)
-    return {"reentersTracer": traced_execs > 0, "hasHandlers": has_try, "touchesMocking": touches,
-            "execs": all_execs}
+    return {"reentersTracer": found["traced"] > 0, "hasHandlers": found["try"], "touchesMocking": found["touches"],
+            "execs": found["execs"]}
 
 
 # --------------------------------------------------------------------------
@@ -428,13 +380,19 @@ def acts(xs):
     return lean_list(["." + a for a in xs])
 
 
-def translate():
+def generate():
+    """-> (text of the generated Lean file, info) - nothing is written"""
     use_repo()
     from pedal.sandbox.sandbox import Sandbox
     from pedal.sandbox.feedbacks import EXCEPTION_FF_MAP, runtime_error
-    parts, notes = walk_execute(inspect.getsource(Sandbox._execute))
-    imp = walk_import(inspect.getsource(Sandbox._import))
+    import pedal.sandbox.sandbox as sandbox_module
+    import sandboxexec_ladder as ladder
     mock = probe_mocking()
+    module_src = inspect.getsource(sandbox_module)
+    parts, notes, ladder_info = ladder.build_ladder(module_src, mock, module_obj=sandbox_module,
+                                                    module_file=inspect.getsourcefile(sandbox_module))
+    class_methods = ladder.Reader(module_src).methods
+    imp = walk_import(inspect.getsource(Sandbox._import), class_methods)
     tracers = probe_tracers()
     strategy, strategy_obs = probe_line_strategy()
     unguarded = probe_hazards()
@@ -452,7 +410,11 @@ def translate():
         "namespace Pedal.Gen.SandboxExec",
         "open Pedal.SandboxExec",
         "",
-        "/-- `Sandbox._execute` (non-threaded path), from its AST. -/",
+        "-- ladder: %s; measurement: %s; cross-check: %s" % (
+            ladder_info["source"], ladder_info["measured"], ladder_info["cross_check"]),
+        "/-- `Sandbox._execute` (non-threaded path): read from its AST by meaning (locals followed, helpers inlined,",
+        "    tuple / isinstance handlers expanded into clauses) and cross-checked against the measured behaviour of",
+        "    the real function (harness/sandboxexec_ladder.py). -/",
         "def executeDef : ExecuteDef :=",
         "  { pre := %s," % acts(parts["pre"]),
         "    body := %s," % acts(parts["body"]),
@@ -507,12 +469,22 @@ def translate():
         "",
     ]
     src = "\n".join(lines)
+    return src, {"file": "PedalModel/Gen/SandboxExecGen.lean", "sha1": hashlib.sha1(src.encode()).hexdigest()[:12],
+                 "notes": notes, "unguarded": unguarded, "line_strategy": strategy,
+            "tracers": tracers, "import": imp, "ladder": ladder_info}
+
+
+def translate():
+    src, info = generate()
     path = os.path.join(LEAN_DIR, "PedalModel", "Gen", "SandboxExecGen.lean")
-    changed = write_if_changed(path, src)
-    return {"file": "PedalModel/Gen/SandboxExecGen.lean", "sha1": hashlib.sha1(src.encode()).hexdigest()[:12],
-            "changed": changed, "notes": notes, "unguarded": unguarded, "line_strategy": strategy,
-            "tracers": tracers, "import": imp}
+    info["changed"] = write_if_changed(path, src)
+    return info
 
 
 if __name__ == "__main__":
-    print(translate())
+    if "--dry" in sys.argv:                  # print the generated definition of the ladder, write nothing
+        text, meta = generate()
+        print(text[text.index("-- ladder:"):text.index("/-- `Sandbox._import`")])
+        print(meta["import"], meta["ladder"])
+    else:
+        print(translate())
